@@ -252,7 +252,15 @@ func (w *witness) ReadFrom(r io.Reader) (n int64, err error) {
 	}
 
 	n += m
-	return n, err
+	if err != nil {
+		return n, err
+	}
+
+	// the header must be consistent with the number of elements decoded
+	if nbElements := reflect.ValueOf(w.vector).Len(); uint64(nbElements) != uint64(w.nbPublic)+uint64(w.nbSecret) {
+		return n, fmt.Errorf("invalid witness: header declares %d public and %d secret values, vector has %d elements", w.nbPublic, w.nbSecret, nbElements)
+	}
+	return n, nil
 }
 
 // MarshalBinary encodes the number of public, number of secret and the fr.Vector.
